@@ -14,13 +14,20 @@ def search(ctx):
        a 32-bit and a 64-bit `usize` — a `panic` there is a crash of the real
        code on that target (a removed `try_into().ok()?` cannot crash a 64-bit
        host: u64 -> usize never fails there)."""
+    known = common.load_known(ctx.pid)
+    if any(common.match_known(known, v) is None for v in ctx.impl_violations):
+        ctx.log("search: the run already produced a concrete crashing input that is not a known finding")
+        return
     if ctx.build_harness("c10"):
         ctx.harness("c10", ["run", ctx.seed + 7919, "thorough"], timeout=3000, name="search:c10")
+    if any(common.match_known(known, v) is None for v in ctx.impl_violations):
+        return
     model_search(ctx)
 
 
 def model_search(ctx):
     drv = common.env()["ROTOV_DRIVER"]
+    ctx.lake_build(["rotov-driver"])  # the driver of the *current* generated definitions
     if not os.path.exists(drv):
         return
     strs = ["", "61", "68c3a96c6c6f", "e697a5e69cac", "61620a63640a"]
